@@ -129,8 +129,9 @@ def legacy_abort_covers_every_use_of_the_id(ctx):
     f = ctx.func('__init__.MultipartUploader.upload_file')
     creates = [c for c, r in q.calls_in(ctx, f) if r.kind == 'client' and r.ext == 'create_multipart_upload']
     ctx.need(creates, 'legacy upload_file no longer creates the multipart upload')
+    uid = (q.names_defined_by(f, lambda v: isinstance(v, ast.Subscript) and norm(v.slice) == "'UploadId'") or ['upload_id'])[0]
     for c, r in q.calls_in(ctx, f):
-        uses_id = any(k.arg == 'UploadId' for k in c.keywords) or any(isinstance(a, ast.Name) and a.id == 'upload_id' for a in c.args)
+        uses_id = any(k.arg == 'UploadId' for k in c.keywords) or any(isinstance(a, ast.Name) and a.id == uid for a in c.args)
         if not uses_id or q.in_handler(c) is not None:
             continue
         covered = False
@@ -138,6 +139,6 @@ def legacy_abort_covers_every_use_of_the_id(ctx):
             if field == 'body':
                 for h in t.handlers:
                     aborts = [x for x in ast.walk(h) if isinstance(x, ast.Call) and (dotted(x.func) or '').endswith('abort_multipart_upload')]
-                    if aborts and any(kwarg(a, 'UploadId') is not None and norm(kwarg(a, 'UploadId')) == 'upload_id' for a in aborts):
+                    if aborts and any(kwarg(a, 'UploadId') is not None and norm(kwarg(a, 'UploadId')) == uid for a in aborts):
                         covered = True
-        ctx.ob(f, c, covered, 'a failure of this call leaves the multipart upload open (no abort is issued): it is outside the aborting try')
+        ctx.ob(f, f'{dotted(c.func) or short(c.func)}(... upload_id ...)', covered, 'a failure of this call leaves the multipart upload open (no abort is issued): it is outside the aborting try', node=c)
